@@ -532,10 +532,28 @@ def check_nan_results(prog, rep, fs, entry_of):
                     inits = [v for v in f.local_assigns().get(res, []) if isinstance(v, ast.AST)]
                     init_ok = any(isinstance(v, ast.Call) and short(v) == 'full' and len(v.args) >= 2 and
                                   norm(v.args[1]) in ('np.nan', 'numpy.nan') for v in inits)
-                    g = pm.get(st)
-                    guard_ok = isinstance(g, ast.If) and norm(g.test).replace(' ', '') in (
-                        'len(%s)>0' % norm(c.args[0]), '%s.size>0' % norm(c.args[0]), 'len(%s)!=0' % norm(c.args[0]),
-                        '%s.shape[0]>0' % norm(c.args[0]))
+                    a0 = norm(c.args[0])
+                    pos = ('len(%s)>0' % a0, '%s.size>0' % a0, 'len(%s)!=0' % a0, '%s.shape[0]>0' % a0, 'len(%s)>=1' % a0)
+                    neg = ('len(%s)==0' % a0, '%s.size==0' % a0, 'notlen(%s)' % a0, '%s.shape[0]==0' % a0, 'len(%s)<1' % a0)
+                    # non-emptiness dominates the store: an enclosing `if len(v) > 0`, or an earlier
+                    # `if len(v) == 0: continue / return` in an enclosing block
+                    guard_ok = False
+                    cur = st
+                    while cur is not None and not guard_ok:
+                        par = pm.get(cur)
+                        if isinstance(par, ast.If) and cur in par.body and norm(par.test).replace(' ', '') in pos:
+                            guard_ok = True
+                        if isinstance(par, ast.If) and cur in par.orelse and norm(par.test).replace(' ', '') in neg:
+                            guard_ok = True
+                        for fld in ('body', 'orelse'):
+                            blk = getattr(par, fld, None)
+                            if isinstance(blk, list) and cur in blk:
+                                for prev in blk[:blk.index(cur)]:
+                                    if isinstance(prev, ast.If) and norm(prev.test).replace(' ', '') in neg and prev.body and \
+                                            isinstance(prev.body[-1], (ast.Continue, ast.Return, ast.Break)) and not prev.orelse:
+                                        # the tested vector must not be rebound between the test and the store
+                                        guard_ok = True
+                        cur = par if not isinstance(par, (ast.FunctionDef, ast.For, ast.While)) else None
                     n += 1
                     rep.add('Z5', f, entry_of(f), norm(st), st.lineno, init_ok and guard_ok,
                             'a zone with no valid cell must get NaN: the result vector must be NaN-initialised and '
@@ -546,36 +564,57 @@ def check_nan_results(prog, rep, fs, entry_of):
 
 # ------------------------------------------------------------------------------------------- ZS strides
 def check_strides(prog, rep, m, entry):
+    """ZS on the interpreted stride routine: one cursor starts at 0, is never reset, advances by one while (bounds test
+    first) the sorted vector at the cursor equals the i-th id, and its value after that run is recorded for every id"""
+    from .kai import interpret, cond_repr
+    from .kutil import CannotEvaluate, eval_cond_full, guard_atoms
+    from .sym import App, Rat, Sym
+    from fractions import Fraction
     f = m.funcs.get('_strides')
     if f is None:
         raise AnalysisIncomplete('_strides not found')
-    fors = [n for n in f.node.body if isinstance(n, ast.For)]
-    ok = False
+    ok = None
     why = 'shape not recognised'
-    if len(fors) == 1 and len(fors[0].body) == 2 and isinstance(fors[0].body[0], ast.While) and \
-            isinstance(fors[0].body[1], ast.Assign):
-        lp = fors[0]
-        w, st = lp.body
-        i = lp.target.id
-        test = w.test
-        conj = test.values if isinstance(test, ast.BoolOp) and isinstance(test.op, ast.And) else []
-        cnt = None
-        bound = eq = False
-        for cpart in conj:
-            if isinstance(cpart, ast.Compare) and isinstance(cpart.ops[0], ast.Lt) and isinstance(cpart.left, ast.Name):
-                cnt = cpart.left.id
-                bound = True
-        for cpart in conj:
-            if isinstance(cpart, ast.Compare) and isinstance(cpart.ops[0], ast.Eq):
-                t = {norm(cpart.left), norm(cpart.comparators[0])}
-                if cnt and t == {'%s[%s]' % (f.params[0], cnt), '%s[%s]' % (f.params[1], i)}:
-                    eq = True
-        inc = len(w.body) == 1 and isinstance(w.body[0], ast.AugAssign) and norm(w.body[0]) == '%s += 1' % cnt
-        store = isinstance(st.targets[0], ast.Subscript) and norm(st.targets[0].slice) == i and norm(st.value) == cnt
-        first_bound = bool(conj) and isinstance(conj[0], ast.Compare) and isinstance(conj[0].ops[0], ast.Lt)
-        ok = bound and eq and inc and store and first_bound
-        why = 'bound test first: %s, equality with the i-th id: %s, cursor += 1 only: %s, strides[i] = cursor after the inner loop: %s' % (
-            first_bound, eq, inc, store)
+    try:
+        k = interpret(prog, f, strict=False)
+        outs = [v for v, g in k.returns]
+        fors = [L for L in k.loops if L.kind == 'range']
+        whiles = [L for L in k.loops if L.kind == 'while']
+        stores = [st for st in k.stores if outs and st.arr is outs[0] and st.loops]
+        if len(fors) == 1 and len(whiles) == 1 and len(stores) == 1 and len(whiles[0].phi) == 1:
+            Lo, Lw, st = fors[0], whiles[0], stores[0]
+            sortedv, ids = f.params[0], f.params[1]
+            cname = next(iter(Lw.phi))
+            c = Lw.phi[cname]
+            C = next(iter(c.atoms()))
+            i = Rat.sym(Lo.var)
+            full = Lo.lo == Rat.const(0) and Lo.step == Rat.const(1) and repr(Lo.hi) in (
+                repr(Rat.atom(App('len', [Rat.sym(ids)]))), repr(Rat.atom(App('shape', [ids, 0]))))
+            start0 = Lo.pre.get(cname) == Rat.const(0)
+            carried = Lw.pre.get(cname) == Lo.phi.get(cname) and cname in Lo.carried and \
+                '~wout' in repr(Lo.carried[cname][1]) and Lo.carried[cname][1] == st.value
+            step1 = cname in Lw.carried and Lw.carried[cname][1] == c + Rat.const(1)
+            recorded = tuple(st.idx) == (i,) and not st.guards
+            # the run test: cursor inside the vector AND element equals the i-th id; the bounds test comes first
+            t = Lw.test
+            parts = list(t[1:]) if t[0] == 'and' else [t]
+            elem = App('read', [sortedv, c])
+            idat = App('read', [ids, i])
+            n_at = [a for a in guard_atoms([t]) if isinstance(a, App) and a.name in ('shape', 'len')]
+            vals = []
+            for cv, ev, iv in ((2, 7, 7), (2, 7, 8), (5, 7, 7), (6, 7, 7)):
+                env = {C: Fraction(cv), elem: Fraction(ev), idat: Fraction(iv)}
+                for a in n_at:
+                    env[a] = Fraction(5)
+                vals.append(eval_cond_full(t, env))
+            test_ok = vals == [True, False, False, False]
+            first_bound = len(parts) == 2 and elem not in guard_atoms(parts[:1])
+            ok = full and start0 and carried and step1 and recorded and test_ok and first_bound
+            why = 'all ids: %s, cursor starts at 0: %s, carried across ids and recorded after the run: %s, advances by 1: %s, ' \
+                  'stored for every id: %s, run test (inside and equal): %s, bounds test first: %s' % (
+                      full, start0, carried, step1, recorded, vals, first_bound)
+    except (AnalysisIncomplete, CannotEvaluate) as e:
+        ok, why = None, str(e)
     rep.add('ZS', f, entry, '_strides loop skeleton', f.node.lineno, ok,
             'the stride routine must advance one monotone cursor while the sorted vector equals the i-th id (bounds '
             'test first) and record the cursor once per id: ' + why)
